@@ -520,9 +520,14 @@ func (h *Hashgraph) updateAncestorFirstDescendant(event *Event) error {
 				// Stopping condition. We don't want to go all the way down to
 				// the bottom of the hashgraph (which could happen if the event
 				// is from a new participant). So we stop at the ancestors that
-				// are witnesses.
-				if w, err := h.witness(ah); err == nil && w {
-					break
+				// are witnesses. An ancestor that has not been through
+				// DivideRounds yet has no round: asking whether it is a witness
+				// would compute (and cache) its round from a round table that
+				// does not hold the other undivided witnesses yet.
+				if a.round != nil {
+					if w, err := h.witness(ah); err == nil && w {
+						break
+					}
 				}
 				ah = a.SelfParent()
 			} else {
